@@ -353,6 +353,69 @@ def w_F32(ctx):
     return _design(ctx, _leaf([a, b, d1, d2], [2, 3], []), ["exception"], strat="RandomGen")
 
 
+def w_F33(ctx):
+    # derived factor with stride 2 and an explicit start that is not the default one: the k-th application must read
+    # the window ending at trial start + 2k (the SAT encoding read (k + start - default) * 2)
+    for width, start, n in ((1, 1, 4), (2, 2, 5), (2, 0, 4)):
+        size = 3 ** width
+        t0 = [1 if k % 3 == 1 else 0 for k in range(size)]          # newest position holds level 0
+        d = {"id": 1, "name": "f1", "window": {"deps": [0], "width": width, "stride": 2, "start": start, "kind": "window"},
+             "levels": [{"name": "isr", "w": 1, "table": t0}, {"name": "notr", "w": 1, "table": [1 - x for x in t0]}]}
+        desc = _leaf([C2, d], [0], [{"k": "MinimumTrials", "n": n}, {"k": "ExactlyK", "n": 1, "f": 1, "l": 0}])
+        r = _design(ctx, desc, ["sound", "exhaust"])
+        if r:
+            return "width %d stride 2 start %d: %s" % (width, start, r)
+    return None
+
+
+def _nest_early_window():
+    a, b = _sf(0, ["1", "2"]), _sf(10, ["x", "y"])
+    # width 3, start 0: level p iff the oldest position exists and equals the newest
+    tp = [1 if (k // 9) != 0 and (k // 9) == (k % 3) else 0 for k in range(27)]
+    w = {"id": 1, "name": "f1", "window": {"deps": [0], "width": 3, "stride": 1, "start": 0, "kind": "window"},
+         "levels": [{"name": "p", "w": 1, "table": tp}, {"name": "q", "w": 1, "table": [1 - x for x in tp]}]}
+    return {"factors": [a, w, b], "block": {"k": "nest", "cs": [], "align": None,
+            "outer": {"k": "cross", "design": [0, 1], "crossing": [0, 1], "rcc": True, "cs": []},
+            "inner": {"k": "cross", "design": [10], "crossing": [10], "rcc": True, "cs": []}}}
+
+
+def w_F34(ctx):
+    # Nest whose outer block crosses a window factor with an early explicit start (BeforeStart alternatives):
+    # the SAT samplers found no sequence at all
+    d = _nest_early_window()
+    return _design(ctx, d, ["exception", "exhaust"]) or _design(ctx, d, ["agree"])
+
+
+def w_F35(ctx):
+    # Nest whose outer block crosses a width-2 window factor with the explicit start 2: the factor has no level in
+    # the first two groups (trials 0-3); RandomGen labelled group 1
+    def same(a):
+        return a[0] == a[-1]
+    A = sp.Factor("A", ["a1", "a2"])
+    Dd = sp.Factor("D", [sp.DerivedLevel("same", sp.Window(same, [A], 2, 1, 2)), sp.ElseLevel("diff")])
+    S = sp.Factor("S", ["s1", "s2"])
+    nb = sp.Nest(sp.CrossBlock([A, Dd], [A, Dd], []), sp.CrossBlock([S], [S], []), [], alignment=sp.AlignmentMode.POST_PREAMBLE)
+    for strat in ("RandomGen", "IterateSATGen"):
+        for e in O.synth(nb, 4, strat):
+            for t, v in enumerate(e["D"]):
+                g = t // 2
+                want = "" if g < 2 else ("same" if e["A"][t] == e["A"][t - 2] else "diff")
+                if v != want:
+                    return "%s: D at trial %d is %r, documented %r (A = %s)" % (strat, t, v, want, " ".join(e["A"]))
+    return None
+
+
+def w_F36(ctx):
+    # a weighted derived level in the crossing whose source is a weighted factor outside the crossing: the derived
+    # level keeps its weight (crossing size 2 * (2 + 1) = 6)
+    col = _sf(0, ["red", "blue"])
+    size = _sf(1, ["big", "small"], [2, 1])
+    kind = _within(2, [1], [2], [[0, 1, 0], [1, 0, 1]], ["isbig", "notbig"])
+    kind["levels"][0]["w"] = 2
+    d = _leaf([col, size, kind], [0, 2], [])
+    return _design(ctx, d, ["trialcount", "sound"])
+
+
 def w_F30(ctx):
     s3 = _sf(0, ["c1", "c2", "c3"])
     w = _sf(1, ["big", "small"], [2, 1])
